@@ -108,6 +108,16 @@ fn add_regions(lay: &mut Layout, rng: &mut Rng, n_regions: usize) -> Vec<(usize,
     regions
 }
 
+/// some comment piece directly follows a head word of a type declaration (inside a region the
+/// re-layout may have put it on its own line)
+fn comment_after_type_head(lay: &Layout) -> bool {
+    (1..lay.pieces.len()).any(|i| {
+        matches!(lay.pieces[i].kind, PieceKind::LineComment | PieceKind::BlockComment)
+            && (wf::is_type_head_word(&lay.pieces[i - 1].text.to_ascii_lowercase())
+                || (i > 1 && lay.pieces[i - 1].text.eq_ignore_ascii_case("for") && lay.pieces[i - 2].text.eq_ignore_ascii_case("helper")))
+    })
+}
+
 impl Prop for C07 {
     fn id(&self) -> &'static str {
         "C07"
@@ -256,11 +266,15 @@ impl Prop for C07 {
                     continue;
                 }
                 let toggle_after_type_head = regions.iter().any(|&(a, b, _)| {
-                    [a, b].iter().any(|&p| p > 0 && matches!(lay.pieces[p - 1].text.to_ascii_lowercase().as_str(), "class" | "record" | "interface" | "object" | "=" | "helper" | "packed" | "to" | "of" | "array" | "set" | "reference" | "function" | "procedure"))
+                    [a, b].iter().any(|&p| {
+                        p > 0
+                            && (matches!(lay.pieces[p - 1].text.to_ascii_lowercase().as_str(), "class" | "record" | "interface" | "object" | "=" | "helper" | "packed" | "to" | "of" | "array" | "set" | "reference" | "function" | "procedure")
+                                || (p > 1 && lay.pieces[p - 1].text.eq_ignore_ascii_case("for") && lay.pieces[p - 2].text.eq_ignore_ascii_case("helper")))
+                    })
                 });
                 let class = if wf::in_ranges(&orphans, ord) || (ord > 0 && wf::in_ranges(&orphans, ord - 1)) {
                     "child-of-verbatim-parent"
-                } else if toggle_after_type_head {
+                } else if toggle_after_type_head || comment_after_type_head(&lay) {
                     "comment-after-type-head"
                 } else {
                     "outside-not-formatted"
